@@ -140,7 +140,8 @@ def root_development(
         dZr = Zr - ZrOld
 
         # Adjust expansion rate for presence of restrictive soil horizons
-        if Zr > Crop.Zmin:
+        def _restricted_depth(Zpot):
+            # depth actually reached when the potential depth Zpot meets restrictive soil layers
             layeri = 1
             l_idx = np.argwhere(prof.Layer == layeri).flatten()
             Zsoil = prof.dz[l_idx].sum()
@@ -153,7 +154,7 @@ def root_development(
             layer_comp = l_idx[0]
             # soil_layer = prof.Layer[layeri]
             ZrAdj = Crop.Zmin
-            ZrRemain = Zr - Crop.Zmin
+            ZrRemain = Zpot - Crop.Zmin
             deltaZ = Zsoil - Crop.Zmin
             EndProf = False
             while EndProf == False:
@@ -174,9 +175,14 @@ def root_development(
                     soil_layer_dz = prof.dz[l_idx].sum()
                     Zsoil = Zsoil + soil_layer_dz
                     deltaZ = soil_layer_dz
+            return ZrOUT
 
-            # Correct Zr and dZr for effects of restrictive horizons
-            Zr = ZrOUT
+        if Zr > Crop.Zmin:
+            # Correct Zr and dZr for effects of restrictive horizons: both today's and
+            # yesterday's potential depth, so that dZr is the expansion actually possible
+            Zr = _restricted_depth(Zr)
+            if ZrOld > Crop.Zmin:
+                ZrOld = _restricted_depth(ZrOld)
             dZr = Zr - ZrOld
 
         # Adjust rate of expansion for any stomatal water stress
